@@ -14,7 +14,7 @@ mod ser;
 
 use de::{DePlan, DeState, KeyForm, Noise, Order, Presentation, Shape};
 use gen::{FaultyWriter, GenCtx, JsonPath, SubjectDyn, TYPES};
-use model::{stored_form_mismatch, value_mismatch, Node};
+use model::{equal_by_real_parts, other_everywhere, stored_form_mismatch, value_mismatch, Node};
 use rng::{mix, Rng};
 use ser::{SerPlan, SerState};
 use serde::{Deserialize, Serialize};
@@ -29,6 +29,10 @@ pub enum Op {
     Ser(SerPlan, bool),
     /// serialize fault-free, then deserialize the recorded output under a presentation and a fault plan
     De(Presentation, DePlan),
+    /// the same through Deserialize::deserialize_in_place (what serde's Vec / Option / tuple impls call when a
+    /// container is refreshed in place) into an existing number: one that differs everywhere (false), or one that an
+    /// equality looking at real parts only cannot tell from the stored number (true)
+    DeInPlace(Presentation, DePlan, bool),
     /// serde_json end to end
     Json(JsonPath),
     /// serde_json::to_writer into a writer that fails its k-th write call
@@ -172,7 +176,7 @@ pub fn run_case(case: &Case) -> Outcome {
     // fault-free serialization, as the property observes it (J1, J5)
     let hr = match &case.op {
         Op::Ser(_, hr) => *hr,
-        Op::De(p, _) => p.human_readable,
+        Op::De(p, _) | Op::DeInPlace(p, _, _) => p.human_readable,
         _ => true,
     };
     let st0 = SerState::new(SerPlan::None);
@@ -231,9 +235,15 @@ pub fn run_case(case: &Case) -> Outcome {
                 }
             }
         }
-        Op::De(p, plan) => {
+        Op::De(p, plan) | Op::DeInPlace(p, plan, _) => {
             let st = DeState::new(plan.clone());
-            let res = catch_unwind(AssertUnwindSafe(|| subject.de(&rec, &st, p)));
+            let res = match &case.op {
+                Op::DeInPlace(_, _, near) => {
+                    let target = if *near { equal_by_real_parts(&expect) } else { other_everywhere(&expect) };
+                    catch_unwind(AssertUnwindSafe(|| subject.de_in_place(&rec, &st, p, &target)))
+                }
+                _ => catch_unwind(AssertUnwindSafe(|| subject.de(&rec, &st, p))),
+            };
             let s = st.borrow();
             let failed = s.failed();
             out.history = s.history.iter().map(|e| format!("{}{}:{}", if e.ok { "" } else { "!" }, e.kind, e.detail)).collect();
@@ -468,6 +478,16 @@ fn cases_for_value(seed: u64, i: u64, thorough: bool) -> Vec<Case> {
     for p in &all {
         cases.push(with(Op::De(*p, DePlan::None)));
     }
+    // refreshed in place: into a number that differs everywhere, and into one that compares equal by real parts
+    for p in [all[0], all[1], all[1 + r.below(all.len() - 1)]] {
+        for near in [false, true] {
+            cases.push(with(Op::DeInPlace(p, DePlan::None, near)));
+        }
+        let m = run_case(&with(Op::DeInPlace(p, DePlan::None, true))).history.len();
+        if m > 0 {
+            cases.push(with(Op::DeInPlace(p, DePlan::FailOnce(r.below(m)), true)));
+        }
+    }
     let swept = if thorough { all.clone() } else { presentations(&mut r, is_f32, false) };
     for p in &swept {
         let m = run_case(&with(Op::De(*p, DePlan::None))).history.len();
@@ -512,8 +532,8 @@ fn cases_for_value(seed: u64, i: u64, thorough: bool) -> Vec<Case> {
 fn op_tag(op: &Op) -> u64 {
     match op {
         Op::Ser(_, hr) => 1 + *hr as u64,
-        Op::De(p, _) => {
-            10 + match p.shape { Shape::Map => 0, Shape::Seq => 1, Shape::MapByHint => 128 } + 2 * match p.order { Order::Written => 0, Order::Reversed => 1, Order::Sorted => 2, Order::Permuted(_) => 3 }
+        Op::De(p, _) | Op::DeInPlace(p, _, _) => {
+            (if matches!(op, Op::DeInPlace(..)) { 4096 } else { 0 }) + 10 + match p.shape { Shape::Map => 0, Shape::Seq => 1, Shape::MapByHint => 128 } + 2 * match p.order { Order::Written => 0, Order::Reversed => 1, Order::Sorted => 2, Order::Permuted(_) => 3 }
                 + 8 * match p.keys { KeyForm::Str => 0, KeyForm::Owned => 1, KeyForm::Borrowed => 2, KeyForm::Bytes => 256, KeyForm::Index => 512 } + 32 * p.f32_as_f64 as u64 + 64 * p.human_readable as u64 + 1024 * match p.noise { Noise::None => 0, Noise::Unknown(_) => 1, Noise::Duplicate(_) => 2 }
         }
         Op::Json(p) => 100 + *p as u64,
@@ -574,6 +594,8 @@ fn op_name(op: &Op) -> &'static str {
         Op::Ser(..) => "ser/faulted",
         Op::De(_, DePlan::None) => "de/fault-free presentation",
         Op::De(..) => "de/faulted",
+        Op::DeInPlace(_, DePlan::None, _) => "de_in_place/fault-free",
+        Op::DeInPlace(..) => "de_in_place/faulted",
         Op::Json(_) => "json/roundtrip",
         Op::JsonWriter { fail_at: None, .. } => "json/writer fault-free",
         Op::JsonWriter { .. } => "json/writer faulted",
@@ -591,7 +613,7 @@ fn run_range(seed: u64, from: u64, to: u64, thorough: bool) -> Stats {
             let o = run_case(case);
             st.cases += 1;
             *st.ops.entry(op_name(&case.op).to_string()).or_default() += 1;
-            if matches!(case.op, Op::Ser(..) | Op::De(..)) {
+            if matches!(case.op, Op::Ser(..) | Op::De(..) | Op::DeInPlace(..)) {
                 st.seam_calls += o.history.len() as u64;
             } else {
                 st.json_cases += 1;
@@ -665,6 +687,13 @@ fn single_fault_variants(c: &Case) -> Vec<Case> {
             let len = run_case(&with(Op::JsonWriter { fail_at: None, one_byte: false })).history.get(1).map(|s| s.len()).unwrap_or(0);
             for k in 0..len {
                 v.push(with(Op::JsonTruncated { keep: k, reader: *reader }));
+            }
+        }
+        Op::DeInPlace(p, _, near) => {
+            let n = run_case(&with(Op::DeInPlace(*p, DePlan::None, *near))).history.len();
+            v.push(with(Op::DeInPlace(*p, DePlan::None, *near)));
+            for k in 0..n {
+                v.push(with(Op::DeInPlace(*p, DePlan::FailOnce(k), *near)));
             }
         }
         Op::Json(_) => {}
@@ -1108,7 +1137,7 @@ The thorough tier adds EVERY pair of rejected serializer calls for histories of 
             "determinism_check": { "values": det_values, "cases": d1.cases, "thread_partitions": [threads, 3], "digest_equal": deterministic, "digest": format!("{:016x}", d1.digest) },
             "real_components": ["the expansions of #[derive(Serialize, Deserialize)] on Dual, Dual2, Dual3, HyperDual, HyperHyperDual inside num-dual (skipped marker, recursion through nested parts)", "serde's f32/f64/PhantomData impls and MapAccess/SeqAccess/identifier plumbing", "serde_json (end-to-end tier only)"],
             "stubbed_components": ["the data format: Serializer (ser.rs) and Deserializer (de.rs) under the simulator's presentations and fault plans", "io::Write behind serde_json::to_writer"],
-            "invariants": ["J1 stored form: exactly the documented part names, each once, stored bits, nothing else; the field count announced to serialize_struct equals the fields written", "J2 round trip under every legal presentation", "J3 a rejected serializer call implies Err", "J4 a failed struct/value/element delivery implies Err; Ok after a failed key probe only with the stored number", "J5 no spurious error or panic", "J6 serde_json end to end (values the path represents exactly), key set of the JSON text"],
+            "invariants": ["J1 stored form: exactly the documented part names, each once, stored bits, nothing else; the field count announced to serialize_struct equals the fields written", "J2 round trip under every legal presentation, also through deserialize_in_place into an existing number", "J3 a rejected serializer call implies Err", "J4 a failed struct/value/element delivery implies Err; Ok after a failed key probe only with the stored number", "J5 no spurious error or panic", "J6 serde_json end to end (values the path represents exactly), key set of the JSON text"],
             "known_findings_hit": known_hits,
             "unlisted_finding_keys": unknown_keys,
             "exhaustive": false
